@@ -654,7 +654,7 @@ func (sm *Sim) DumpTables() string {
 		if h.MACEntry != nil {
 			mac = MacTok(h.MACEntry.MAC)
 		}
-		hs = append(hs, IPTok(k)+"/"+IPTok(h.Addr.IP)+"/"+mac+"/"+MacTok(h.Addr.MAC)+"/"+b01(h.Online)+b01(h.Dirty())+"/"+vsec(h.LastSeen)+"/"+hostNames(h))
+		hs = append(hs, IPTok(k)+"/"+IPTok(h.Addr.IP)+"/"+mac+"/"+MacTok(h.Addr.MAC)+"/"+b01(h.Online)+b01(h.Dirty())+"/"+vsec(h.LastSeen)+"/"+hostNames(h)+"/"+h.HuntStage.String()+"/"+h.Manufacturer)
 	}
 	var ms []string
 	for _, e := range sm.S.MACTable.Table {
@@ -663,7 +663,7 @@ func (sm *Sim) DumpTables() string {
 			l = append(l, IPTok(h.Addr.IP))
 		}
 		ms = append(ms, MacTok(e.MAC)+"/"+b01(e.Online)+b01(e.Captured)+b01(e.IsRouter)+"/"+IPTok(e.IP4)+"/"+IPTok(e.IP4Offer)+"/"+
-			IPTok(e.IP6GUA)+"/"+IPTok(e.IP6LLA)+"/["+strings.Join(l, "+")+"]/"+macNames(e))
+			IPTok(e.IP6GUA)+"/"+IPTok(e.IP6LLA)+"/["+strings.Join(l, "+")+"]/"+macNames(e)+"/"+e.Manufacturer)
 	}
 	return "H:" + strings.Join(hs, ",") + "|M:" + strings.Join(ms, ",")
 }
@@ -791,8 +791,83 @@ func (sm *Sim) Views(ips []netip.Addr, macs []net.HardwareAddr) string {
 		ent := sm.S.FindMACEntry(m)
 		e += b01(ent != nil && len(ent.HostList) > 0)
 	}
-	return "G:" + sm.Triples() + "|F:" + strings.Join(f, ",") + "|A:" + strings.Join(a, ",") + "|B:" + strings.Join(b, ",") + "|E:" + e + "|X:" + x
+	// every other field the model has (compared with the model only): per candidate MAC the entry's DHCPv4IPOffer, IP4,
+	// GUA, LLA, online / captured / router flags and names; per host dirty and names; the order of the hosts by LastSeen
+	var o []string
+	for _, m := range macs {
+		ent := sm.S.FindMACEntry(m)
+		if ent == nil {
+			o = append(o, "-")
+			continue
+		}
+		o = append(o, IPTok(sm.S.DHCPv4IPOffer(m))+"/"+IPTok(ent.IP4)+"/"+IPTok(ent.IP6GUA)+"/"+IPTok(ent.IP6LLA)+"/"+
+			b01(ent.Online)+b01(sm.S.IsCaptured(m))+b01(ent.IsRouter)+"/"+macNames(ent))
+	}
+	hosts := sm.S.GetHosts()
+	sort.Slice(hosts, func(i, j int) bool { return hosts[i].Addr.IP.Compare(hosts[j].Addr.IP) < 0 })
+	d := make([]string, len(hosts))
+	for i, h := range hosts {
+		d[i] = IPTok(h.Addr.IP) + "/" + b01(h.Dirty()) + "/" + hostNames(h)
+	}
+	sort.SliceStable(hosts, func(i, j int) bool { return hosts[i].LastSeen.Before(hosts[j].LastSeen) })
+	l := make([]string, len(hosts))
+	for i, h := range hosts {
+		l[i] = IPTok(h.Addr.IP)
+	}
+	return "G:" + sm.Triples() + "|F:" + strings.Join(f, ",") + "|A:" + strings.Join(a, ",") + "|B:" + strings.Join(b, ",") + "|E:" + e + "|X:" + x +
+		"|O:" + strings.Join(o, ",") + "|D:" + strings.Join(d, ",") + "|L:" + strings.Join(l, "<")
 }
+
+// ObservedFields: the Host / MACEntry fields and tables that the dumps of this package print (DumpTables, Views) or the
+// invariant oracle checks by identity. The per-run self-check of c05 (src observed) requires every field the entry
+// points WRITE (go/ast census) to be in this list.
+var ObservedFields = []string{"Addr", "MACEntry", "Online", "dirty", "LastSeen", "HuntStage", "Manufacturer", "DHCP4Name", "MDNSName",
+	"SSDPName", "LLMNRName", "NBNSName", "HostList", "HostTable.Table", "MACTable.Table", "IP4", "IP4Offer", "IP6GUA", "IP6LLA", "IsRouter", "Captured"}
+
+// OfferPairHistory: every ordered pair of {SetDHCPv4IPOffer, DHCPv4Update, frame, purge} on ONE client MAC, with the
+// client online / offline (aged) / unknown beforehand, the two ops on the same or on different addresses, a DHCP-path
+// Notify and repeat traffic afterwards. idx enumerates the combinations.
+func (g *Gen) OfferPairHistory(idx int) []string {
+	u := g.U
+	m := u.MACs[2+idx%3]
+	ip4 := []netip.Addr{u.IP4s[2], u.IP4s[3], u.IP4s[4]}
+	y := ip4[g.Rng.Intn(3)]
+	x := ip4[(indexOf(ip4, y)+1+g.Rng.Intn(2))%3]
+	now := int64(0)
+	t := func(d int64) int64 { now += d; return now }
+	var ops []string
+	switch (idx / 3) % 3 { // before: online at y / offline at y / unknown
+	case 0:
+		ops = append(ops, RxTok(m, "4", y, nil, 0, t(1)), "N")
+	case 1:
+		ops = append(ops, RxTok(m, "4", y, nil, 0, t(1)), "N", fmt.Sprintf("P,%d", t(301)))
+	}
+	one := func(k int, ip netip.Addr) []string {
+		switch k {
+		case 0:
+			return []string{fmt.Sprintf("O,%s,%s,%s", MacTok(m), IPTok(ip), g.name())}
+		case 1:
+			return []string{fmt.Sprintf("U,%s,%s,%s,%d", MacTok(m), IPTok(ip), g.name(), t(1))}
+		case 2:
+			return []string{RxTok(m, "4", ip, nil, 0, t(1)), "N"}
+		}
+		return []string{fmt.Sprintf("P,%d", t(int64(g.Rng.Pick(1, 301))))}
+	}
+	a, b := (idx/9)%4, (idx/36)%4
+	ipA, ipB := x, y // different addresses ...
+	switch (idx / 144) % 3 {
+	case 1:
+		ipA, ipB = y, y // ... the current address twice
+	case 2:
+		ipA, ipB = y, x
+	}
+	ops = append(ops, one(a, ipA)...)
+	ops = append(ops, one(b, ipB)...)
+	ops = append(ops, RxTok(m, "4", u.IP4s[6], nil, 3, t(1)), "N") // the DHCP path of Notify reads the offer
+	ops = append(ops, RxTok(m, "4", y, nil, 0, t(1)), "N")
+	return ops
+}
+
 
 // Candidates collects the distinct addresses and MACs mentioned in a configuration and an op list.
 func Candidates(cfg Cfg, ops []string) (ips []netip.Addr, macs []net.HardwareAddr) {
